@@ -265,7 +265,16 @@ def run_lines(binary, lines, timeout=900, env=None, args=(), line_timeout=None):
     longer than that (or when the whole run exceeds [timeout]): rc = -9, the lines answered so far are returned."""
     import selectors, threading
     data = ("\n".join(lines) + "\n").encode()
-    p = subprocess.Popen([binary, *args], stdin=subprocess.PIPE, stdout=subprocess.PIPE, stderr=subprocess.PIPE, env=env or env_offline())
+    def big_stack():
+        # the extracted OCaml code is not tail recursive everywhere: long traces need a deep stack
+        import resource
+        try:
+            soft, hard = resource.getrlimit(resource.RLIMIT_STACK)
+            resource.setrlimit(resource.RLIMIT_STACK, (hard, hard))
+        except (ValueError, OSError):
+            pass
+    p = subprocess.Popen([binary, *args], stdin=subprocess.PIPE, stdout=subprocess.PIPE, stderr=subprocess.PIPE, env=env or env_offline(),
+                         preexec_fn=big_stack)
 
     def feed():
         try:
